@@ -24,6 +24,10 @@ type edit struct {
 	// the file key that opener obtains): a new valid header, not an alteration
 	// the MAC is there to detect (DESIGN §4 C03, soundness).
 	skip map[string]bool
+	// for edits of one character range of a long field: which kind of field
+	// and the lowest offset changed (vacuity guard of the long-field sweep)
+	isArg, isType bool
+	off           int
 }
 
 const b64alphabet = "ABCDEFGHIJKLMNOPQRSTUVWXYZabcdefghijklmnopqrstuvwxyz0123456789+/"
@@ -216,7 +220,7 @@ func structuralEdits(o *original, rng *rand.Rand) []edit {
 		}
 		// whole stanza replaced by validly made material
 		reg = fmt.Sprintf("s%d", i)
-		if sym := o.mix[i]; sym != "U" && sym != "U48" {
+		if sym := o.mix[i]; !isUnknown(sym) {
 			p := keys.P(symParty[sym])
 			add("sub-foreign", reg, fmt.Sprintf("stanza %d replaced by the stanza for the same recipient of another valid file", i),
 				with(i, func(s *refage.Stanza) { *s = cloneStanza(o.sibStanzas[i]) }), o.mac, true)
